@@ -1,7 +1,7 @@
 #!/bin/bash
 # Re-runs every stored breaking change (seeded/*/patch.diff and mutants/reverts/*.diff) against the check(s)
 # recorded as catching it and prints one line per change.  Usage: tools/sensitivity.sh [name-glob]
-cd /verif || exit 2
+cd "$(dirname "$0")/.." || exit 2
 pat=${1:-*}
 fail=0
 for d in seeded/$pat/; do
